@@ -122,3 +122,12 @@ def make_dm(rng, dmv, p=0.3):
         return pb.DM(dmv)
     unit = rng.choice([u.cm ** -2, u.m ** -2, u.pc / u.m ** 3, u.kpc / u.cm ** 3, u.lyr / u.cm ** 3])
     return pb.DispersionMeasure((dmv * u.pc / u.cm ** 3).to(unit))
+
+
+def restore_warning_filters():
+    """CPython's warnings.catch_warnings is not thread-safe: baseband installs a temporary 'error' filter while it opens a file, and two
+    worker threads doing so at once can leave that filter installed for the whole process (each restores what it saw on entry).  The
+    harness runs with every warning ignored (PYTHONWARNINGS=ignore); this puts that state back after a threaded section."""
+    import warnings
+    warnings.resetwarnings()
+    warnings.simplefilter('ignore')
